@@ -583,6 +583,8 @@ def expr_family(chk, build, tier, workdir, stats, corrupt=None):
             fsig = "value" if e["ok"] else re.sub(r"\d+", "N", str(ft))[:80]
             key = {"kind": "builtin-expr" if cs["kind"] == "flat" else "builtin-nest", "op": cs["op"], "route": route,
                    "argclass": JE.argclass(cs["tree"]), "sig": fsig}
+            if cs["op"] in ("SIntToByte", "ByteToSInt"):      # what matters is the byte value, whatever expression yields it
+                key["argclass"] = "128..255" if JE.z_of(rj["expected"][0]) >= 128 else "0..127"
             if cs["kind"] == "nest":
                 key.update({"child": cs["child"], "slot": cs["slot"]})
             ent = rep.setdefault(json.dumps(key, sort_keys=True), {"key": key, "levels": set(), "examples": []})
